@@ -1812,8 +1812,8 @@ def run(ctx):
                 for which, k in (("types", 0), ("dirs", 1)):
                     m_names = [n for n, _ in mo[which]]
                     if tainted[i]:
-                        ctx.stat("order:%s:%s:not-modelled(extension)" % (which, opn))
-                        continue
+                        # `extendOrder` (HeapExt.lean): the depth-first registration order of Schema.__init__ over the rebuilt types
+                        ctx.stat("order:%s:%s:extension-in-ancestry:%s" % (which, opn, "same" if m_names == io[k] else "DIFFERS"))
                     ctx.stat("order:%s:%s:%s" % (which, opn, "same" if m_names == io[k] else "DIFFERS"))
                     if m_names != io[k]:
                         ctx.fail("corr:registry-order:%s:%s" % (which, opn),
